@@ -90,3 +90,14 @@ def earlier_result_survives(ctx, check, later_decodes, label="an earlier decoded
         except Exception:  # noqa: BLE001
             pass
     ctx.holds(label, check())
+
+
+def en(ctx, enum_cls, x):
+    """hand enum-typed parameters to the library as enum members in concrete replays (callers are expected to pass members);
+    in symbolic runs the symbolic integer stands in for the member"""
+    if ctx.symbolic:
+        return x
+    try:
+        return enum_cls(x)
+    except ValueError:
+        return x
